@@ -435,6 +435,13 @@ def py_in(name, t):
         return False
 
 
+def self_typed(name, t):
+    """the field's type IS the record (by name) or a union with the record as a member: the only fields the known finding F11b
+    is about.  (Not Python's `name in t`: a substring / key coincidence -- 'ng' in 'long', 'geo.Point' in 'geo.PointKind' -- was
+    defect F31, fixed in e887415; a recurrence must not be classified as the known finding.)"""
+    return t == name or (isinstance(t, list) and any(b == name for b in t))
+
+
 def grammar(schema, named):
     """shape of the grammar Parser._parse builds: which record occurrences are parsed again (`again`) and which of their fields are
     then replaced by the null-only alternative (`forced`).  Raises NonTerminating when the construction recurses forever."""
@@ -458,7 +465,7 @@ def grammar(schema, named):
                 processed.append(s["name"])
             fields = []
             for f in s["fields"]:
-                if again and py_in(s["name"], f["type"]):
+                if again and self_typed(s["name"], f["type"]):
                     fields.append((f, None))
                 else:
                     fields.append((f, parse(f["type"], depth + 1)))
@@ -776,6 +783,15 @@ def fixed_families(rng):
     # record whose name is a substring / key of a field type, used twice
     F += [("name-in-type", rec("S7", [("a", rec("ng", [("x", "long"), ("y", "string")])), ("b", "ng")]), None),
           ("name-in-type", rec("S8", [("a", rec("R1", [("x", rec("R10", [("q", "int")])), ("y", "R10")])), ("b", "R1")]), None),
+          ("name-in-type", rec("SA", [("a", rec("geo.Point", [("kind", enum("geo.PointKind", ["P", "Q"])), ("k2", "geo.PointKind"), ("x", "int")])),
+                                      ("b", "geo.Point"), ("c", arr("geo.Point"))]), None),
+          ("name-in-type", rec("SB", [("a", rec("R", [("i", rec("b.R", [("q", "int")])), ("j", "b.R"), ("f", fixed("MyR", 1)), ("g", "MyR")])),
+                                      ("b", "R"), ("u", ["null", "R"])]), None),
+          ("name-in-type", rec("SC", [("k", enum("PointKind", ["A"])), ("m", rec("MyPoint", [("z", "int")])),
+                                      ("a", rec("Point", [("k", "PointKind"), ("m", "MyPoint"), ("l", "long"), ("s", "string")])),
+                                      ("b", "Point"), ("c", mp("Point"))]), None),
+          ("name-in-type", arr(rec("in", [("t", "int"), ("s", "string"), ("d", "double")])), None),
+          ("name-in-type", rec("SD", [("a", rec("in", [("t", "int"), ("s", "string")])), ("b", "in"), ("c", "in")]), None),
           ("name-in-type", rec("S9", [("a", rec("type", [("x", arr("int")), ("y", "int")])), ("b", "type")]), None)]
     # recursive types
     for k in (1, 2, 3, 4):
@@ -830,6 +846,11 @@ def fixed_families(rng):
                                      ("a2", arr("E8"), {"default": ["A"]}), ("a3", arr("E8"), {"default": ["C", "B"]}), ("z", "int")]), None))
     F.append(("defaults", arr(rec("D9", [("k", enum("ns9.K", ["P", "Q", "R"]), {"default": "P"}), ("k2", "ns9.K", {"default": "Q"}), ("k3", "ns9.K", {"default": "R"}),
                                          ("m2", mp("ns9.K"), {"default": {"a": "Q"}}), ("m3", mp("ns9.K"), {"default": {"b": "R"}})])), None))
+    # an enum with its OWN (type-level) default, under fields whose default names another symbol
+    F.append(("defaults", rec("D10", [("e", enum("E10", ["A", "B", "C"], default="C"), {"default": "A"}), ("e2", "E10", {"default": "B"}),
+                                      ("u", [enum("E10u", ["X", "Y"], default="Y"), "null"], {"default": "X"}),
+                                      ("a", arr(enum("E10a", ["M", "N"], default="N")), {"default": ["M"]}),
+                                      ("m", mp("E10"), {"default": {"k": "A"}}), ("z", "int")]), None))
     F.append(("defaults", rec("D5", [("id", "int"), ("grid", arr(arr("int")), {"default": [[1, 2], [3]]}),
                                      ("index", mp(arr("string")), {"default": {"a": ["x", "y"], "b": []}}),
                                      ("alt", [arr(mp("int")), "null"], {"default": [{"k": 1}, {}]}),
